@@ -43,4 +43,14 @@ theorem murtail_current (x : Src) (hx : x ∈ Gen.Murmur.all) (hn : x.fn = "_mur
   rw [h2]
   exact canon_tail_arith k1 k2 len hash
 
+/-- the whole loop of the block function of the current tree is the model's `murmurBlocks` (C10) -/
+theorem murloop_current (x : Src) (hx : x ∈ Gen.Murmur.all) (hn : x.fn = "_murmur3_x64_128_block")
+    (h : UInt64 × UInt64) (input : Bytes) (n : UInt32) :
+    Mh.murmurBlocks h input n = (blocks 16 n.toNat input).foldl (iter x.prog) h := by
+  have h1 := List.all_eq_true.mp all_canon x hx
+  simp only [Bool.and_eq_true, decide_eq_true_eq, expected, hn] at h1
+  have h2 : x.prog = canonBlock := by simpa using h1.2
+  rw [h2]
+  exact canon_block_loop _ h
+
 end IsalVerif.GenProps.Murmur
